@@ -603,39 +603,76 @@ def kind_of(e, env):
 
 
 def _size_behavior_default(rep, src, m):
-    """the attribute read by the size_field_behavior property has a class-level default (under the same mangled name), and that
-    default is the documented 'apt-ftparchive'"""
-    from ..core import mangle
+    """the size_field_behavior property interpreted on Release objects: a fresh object answers the documented 'apt-ftparchive',
+    an assignment is read back from the same object, and does not change what another object answers (the setting is per object)"""
+    from .. import heap as H
     cdef = m.classes['Release']
-    getter = None
+    getter = setter = None          # (node, is_method)
     for st in cdef.body:
         if isinstance(st, ast.Assign) and norm(st.targets[0]) == 'size_field_behavior' and isinstance(st.value, ast.Call) and norm(st.value.func) == 'property' and st.value.args:
-            g = st.value.args[0]
-            if isinstance(g, ast.Lambda):
-                getter = g.body
-            elif isinstance(g, ast.Name) and m.method('Release', g.id) is not None:
-                rets = [r for r in ast.walk(m.method('Release', g.id).node) if isinstance(r, ast.Return)]
-                getter = rets[0].value if len(rets) == 1 else None
-        if isinstance(st, ast.FunctionDef) and st.name == 'size_field_behavior' and any(norm(d) == 'property' for d in st.decorator_list):
-            rets = [r for r in ast.walk(st) if isinstance(r, ast.Return)]
-            getter = rets[0].value if len(rets) == 1 else None
+            parts = list(st.value.args[:2]) + [None] * (2 - len(st.value.args[:2]))
+            for kw in st.value.keywords:
+                if kw.arg == 'fget':
+                    parts[0] = kw.value
+                if kw.arg == 'fset':
+                    parts[1] = kw.value
+            got = []
+            for g in parts:
+                if isinstance(g, ast.Lambda):
+                    got.append((g, False))
+                elif isinstance(g, ast.Name) and m.method('Release', g.id) is not None:
+                    got.append((m.method('Release', g.id).node, True))
+                else:
+                    got.append(None)
+            getter, setter = got
+        if isinstance(st, ast.FunctionDef) and st.name == 'size_field_behavior':
+            if any(norm(d) == 'property' for d in st.decorator_list):
+                getter = (st, True)
+            if any(norm(d) == 'size_field_behavior.setter' for d in st.decorator_list):
+                setter = (st, True)
     site = MOD + ':Release.size_field_behavior'
-    if not (isinstance(getter, ast.Attribute) and norm(getter.value) == 'self'):
-        raise AnalysisError('%s: the property getter is not `self.<attribute>`' % site)
-    want = mangle('Release', getter.attr)
-    defaults = {}
-    for c in m.mro('Release'):
-        for nm, v in m.consts.get(c, {}).items():
-            defaults.setdefault(mangle(c, nm), v)
+    if getter is None or setter is None:
+        raise AnalysisError('%s: getter and setter of the property not found' % site)
+    heap = H.Heap(m)
+    it = H.Interp(heap)
+
+    def call(part, obj, *args):
+        node, is_method = part
+        try:
+            if is_method:
+                return it.call(H.Closure(node, {}, obj, 'Release'), list(args))
+            return it.call(H.Closure(node, {}, None, 'Release'), [obj] + list(args))
+        except H.Raised as x:
+            return ('raises', x.exc)
+        except AnalysisError as x:
+            if 'has no attribute' in str(x):      # neither the object, its class nor a base class has it
+                return ('raises', 'AttributeError')
+            raise
+    fresh = heap.alloc('Release', {})
+    v0 = call(getter, fresh)
     inits = [n_ for c in m.mro('Release') for f_ in [m.funcs.get(c + '.__init__')] if f_ is not None for n_ in ast.walk(f_.node)
-             if isinstance(n_, ast.Attribute) and isinstance(n_.ctx, ast.Store) and norm(n_.value) == 'self' and mangle(c, n_.attr) == want]
-    if want in defaults and defaults[want] == 'apt-ftparchive':
-        rep.ok('C12.R4', site, 'default behaviour', "class default %s = 'apt-ftparchive'" % want, nontrivial=False)
-    elif want in defaults or inits:
-        rep.fail('C12.R4', site, 'default behaviour', 'the default size_field_behavior is %r, documented: apt-ftparchive' % (defaults.get(want, 'set in __init__'),))
+             if isinstance(n_, ast.Attribute) and isinstance(n_.ctx, ast.Store) and norm(n_.value) == 'self'
+             and isinstance(getter[0], ast.Lambda) and isinstance(getter[0].body, ast.Attribute) and n_.attr == getter[0].body.attr]
+    if v0 == 'apt-ftparchive':
+        rep.ok('C12.R4', site, 'default behaviour', "a Release object that was never configured answers 'apt-ftparchive'", nontrivial=False)
+    elif isinstance(v0, tuple) and v0[:1] == ('raises',) and not inits:
+        rep.fail('C12.R4', site, 'default behaviour', 'on an object that was never configured the getter raises %s: nothing provides a default (the error is swallowed by '
+                 'get_as_string, so the sizes are written unpadded)' % v0[1])
     else:
-        rep.fail('C12.R4', site, 'default behaviour', 'the property reads self.%s, which has no class-level default and is not set by the constructor: in the default '
-                 'configuration the getter raises AttributeError (swallowed by get_as_string), so the sizes are written unpadded' % want)
+        rep.fail('C12.R4', site, 'default behaviour', 'the default size_field_behavior is %r, documented: apt-ftparchive' % ('set in __init__' if inits else v0,))
+    a, b = heap.alloc('Release', {}), heap.alloc('Release', {})
+    r = call(setter, a, 'dak')
+    va, vb, vc = call(getter, a), call(getter, b), call(getter, heap.alloc('Release', {}))
+    if isinstance(r, tuple) and r[:1] == ('raises',):
+        rep.fail('C12.R4', site, 'the setting is per object', "assigning 'dak' raises %s" % r[1])
+    elif va != 'dak':
+        rep.fail('C12.R4', site, 'the setting is per object', "after `r.size_field_behavior = 'dak'` the same object answers %r" % (va,))
+    elif vb != v0 or vc != v0:
+        rep.fail('C12.R4', site, 'the setting is per object', "after `a.size_field_behavior = 'dak'` another Release object (%s) answers %r instead of its own %r: the setter "
+                 'writes into state shared by the class, so one object\'s configuration changes the size column every other Release dumps'
+                 % ('existing before' if vb != v0 else 'created afterwards', vb if vb != v0 else vc, v0))
+    else:
+        rep.ok('C12.R4', site, 'the setting is per object', "assignment on one object is read back there and leaves other objects at %r" % (v0,))
 
 
 def r4_size_column(rep, src):
